@@ -353,6 +353,7 @@ class Configuration(_Configuration):
 
         self._neighbors: dict[str, Any] = {}
         self._previous_neighbors: dict[str, Any] = {}
+        self._previous_processes: dict[str, Any] = {}
 
     @classmethod
     def from_settings(cls, settings: 'ConfigurationSettings') -> 'Configuration':
@@ -485,6 +486,7 @@ class Configuration(_Configuration):
         return self.parser.tokeniser
 
     def _clear(self) -> None:
+        self._previous_processes = self.processes
         self.processes = {}
         self._previous_neighbors = self.neighbors
         self.neighbors = {}
@@ -494,6 +496,10 @@ class Configuration(_Configuration):
     def _cleanup(self) -> None:
         self.error.clear()
         self.parser.clear()
+        self._cleanup_sections()
+
+    # what the sections have parsed so far (the error and the position in the file are kept)
+    def _cleanup_sections(self) -> None:
         self.scope.clear()
 
         self.process.clear()
@@ -523,9 +529,13 @@ class Configuration(_Configuration):
 
     def _rollback_reload(self) -> None:
         self.neighbors = self._previous_neighbors
-        self.processes = self.process.processes
+        self.processes = self._previous_processes
         self._neighbors = {}
         self._previous_neighbors = {}
+        self._previous_processes = {}
+        # nothing of the attempt which failed may be seen by the next one (duplicate peer / process
+        # detection, neighbors committed by a later reload although they are in no file)
+        self._cleanup_sections()
 
     def _commit_reload(self) -> None:
         self.neighbors = self.neighbor.neighbors
@@ -540,6 +550,7 @@ class Configuration(_Configuration):
                 self.neighbors[neighbor].previous = self._previous_neighbors[neighbor]
 
         self._previous_neighbors = {}
+        self._previous_processes = {}
         self._cleanup()
 
     def reload(self) -> bool:
@@ -573,6 +584,28 @@ class Configuration(_Configuration):
         # clearing the current configuration to be able to re-parse it
         self._clear()
 
+        # whatever stops the parser (missing file, syntax error, exception raised by a value parser),
+        # the running configuration must survive it
+        try:
+            parsed = self._parse(fname)
+        except BaseException:
+            self._rollback_reload()
+            raise
+
+        if parsed is not True:
+            self._rollback_reload()
+            return parsed
+
+        self._commit_reload()
+        self._link()
+
+        check = self.validate()
+        if check:
+            return check
+
+        return True
+
+    def _parse(self, fname: str) -> bool:
         if self._text:
             if not self.parser.set_text(fname):
                 return False
@@ -587,18 +620,10 @@ class Configuration(_Configuration):
         self.process.add_api()
 
         if self.parse_section('root') is not True:
-            self._rollback_reload()
             line_str = ' '.join(self.parser.line)
             return self.error.set(
                 f'\nsyntax error in section {self.scope.location()}\nline {self.parser.number}: {line_str}\n\n{self.error!s}',
             )
-
-        self._commit_reload()
-        self._link()
-
-        check = self.validate()
-        if check:
-            return check
 
         return True
 
